@@ -34,9 +34,15 @@ def line(t):
     return 'T ' + line(t[1]) + ' ' + line(t[2])
 
 
+_SCRIPTS = {}
+
+
 def to_py(t):
     from bitcoinutils.script import Script
-    if t[0] == 'L': return Script(list(t[1]))
+    if t[0] == 'L':
+        # equal leaves are the *same* Script object (as when a user puts one script at two positions)
+        key = tuple(t[1])
+        return _SCRIPTS.setdefault(key, Script(list(t[1])))
     if t[0] == 'O': return [to_py(t[1])]
     return [to_py(t[1]), to_py(t[2])]
 
